@@ -107,7 +107,7 @@ func namedGraph(name string) (*Graph, string) {
 func init() {
 	Register(Meta{
 		ID: "C12", Level: "exploration",
-		Rule:        "every report produced by: C01 propositional formulas (size<=1) on the truth-table graph, the C01 quantifier and depth families, C02 paths (<=2 leaves) on the collision suite, a level-mix family (multi-branch formulas in all three levels at once on the 16-node truth table, >=11 results per level), nested chains of depth 1..3 with sibling quantifiers on a 4-layer fan graph (several sub-results per trace, several traces per result), the C14 lexical documents, and the command line tool (every sequence of 2 [thorough: 3] long/short/conforming/percent-sign-bearing reports written to one output file, from an absent file and over longer junk, plus what it prints without an output path). Each report is walked completely by an oracle written from the statement (JSON, one instance, one report node, every typed node has an @id, all @ids pairwise distinct, focus nodes grounded in the input, validation names defined, non-empty message/trace, trace entries complete). Non-trivial = report with at least one result; distinct by report text.",
+		Rule:        "every report produced by: C01 propositional formulas (size<=1) on the truth-table graph, the C01 quantifier and depth families, C02 paths (<=2 leaves) on the collision suite, a level-mix family (multi-branch formulas in all three levels at once on the 16-node truth table, >=11 results per level), nested chains of depth 1..3 with sibling quantifiers on a 4-layer fan graph (several sub-results per trace, several traces per result), the C14 lexical documents, profiles whose `message` is absent / blank / ~ / a number / a boolean, and the command line tool (every sequence of 2 [thorough: 3] long/short/conforming/percent-sign-bearing reports written to one output file, from an absent file and over longer junk, plus what it prints without an output path). Each report is walked completely by an oracle written from the statement (JSON, one instance, one report node, every typed node has an @id, all @ids pairwise distinct, focus nodes grounded in the input, validation names defined, non-empty message/trace, trace entries complete). Non-trivial = report with at least one result; distinct by report text.",
 		Assumptions: []string{"node table of the input taken from the abstract graph the document was rendered from"},
 	}, c12Gen, c12Run)
 }
@@ -148,7 +148,7 @@ func c12Gen(tier string, emit func(c12Case)) {
 	}
 	n := 0
 	c01Gen(tier, func(cs c01Case) {
-		if cs.Fam == "atoms" || cs.Fam == "sibs" {
+		if cs.Fam == "atoms" || cs.Fam == "sibs" || cs.Fam == "twins" {
 			return // the atom catalogue builds its own graphs; its reports are single-trace and add nothing here
 		}
 		n++
@@ -262,6 +262,20 @@ func c12Gen(tier string, emit func(c12Case)) {
 					}
 				}
 			}
+		}
+	}
+	// the message key in every form that is not a non-empty string (absent, blank, ~, a number, a boolean): the result
+	// still carries a non-empty message (the default one). (`message: ""` is left out: the statement of C13, "the
+	// message as written", and this one pull in different directions for it.)
+	for _, form := range []string{"", "message:", "message: ~", "message: null", "message: 404", "message: true", "message: 1.5"} {
+		for _, body := range []string{"propertyConstraints:\n      ex.p1:\n        minCount: 1", "rego: |\n      $result = false", "not:\n      propertyConstraints:\n        ex.p9:\n          maxCount: 5"} {
+			prof := "profile: c12 message forms\nprefixes:\n  ex: http://ex.org/\nviolation:\n  - v0\nvalidations:\n  v0:\n    " + form + "\n    targetClass: ex.T\n    " + body + "\n"
+			emit(c12Case{Src: "msgforms", Profile: prof, Graph: "tt4", Names: []string{"v0"}})
+		}
+		// the {message, code} form of a custom constraint
+		if form != "" {
+			prof := "profile: c12 message forms\nprefixes:\n  ex: http://ex.org/\nviolation:\n  - v0\nvalidations:\n  v0:\n    message: outer\n    targetClass: ex.T\n    rego:\n      " + form + "\n      code: |\n        $result = false\n"
+			emit(c12Case{Src: "msgforms", Profile: prof, Graph: "tt4", Names: []string{"v0"}})
 		}
 	}
 	// lexical documents (locations as typed nodes inside results and traces)
